@@ -154,6 +154,13 @@ Definition server_prog (hs : list (list act)) : prog :=
 Definition system (pro : list act) (heads : list (list act)) (body epi : list act) (hs : list (list act)) (w : bool) : prog :=
   if w then integ_prog pro heads body epi else server_prog hs.
 
+(* ---------------------------------------------------------------- the one audited store of the serializer *)
+(* reb_simulation_save_to_stream:  if (r->ri_ias15.N_allocated > 3*r->N){ r->ri_ias15.N_allocated = 3*r->N; }
+   (N_allocated: the length the IAS15 work arrays are written with; r->N counts variational particles too) *)
+Definition ias15_compress (n_allocated n : nat) : nat := if Nat.ltb (3 * n) n_allocated then 3 * n else n_allocated.
+(* reb_integrator_ias15_alloc re-allocates AND ZEROES the predictor / compensated-summation arrays iff 3*N > N_allocated *)
+Definition ias15_step_reallocates (n_allocated n : nat) : bool := Nat.ltb n_allocated (3 * n).
+
 (* ---------------------------------------------------------------- independent simulations (abstract) *)
 Section Commute.
   Variable L G : Type.
